@@ -4,6 +4,7 @@ import random
 import signal
 import warnings
 
+import c05_lib as C5
 import codec_oracles as O
 import common
 import compudop_lib as CD
@@ -28,9 +29,19 @@ RULE = ("direct oracle (model-free fuzz): for every generated description (odxge
         "placements of the scale limits against the pole, resp. 4 splits into two scales: 6 084 descriptions; quick 160 sampled) plus generated ones "
         "(compu_lib; 160 / 1 200) plus LINEAR with COMPU-DENOMINATOR 0 (30 / 90; the codec model follows these: also correspondence inputs), each decoded at every coded value that matters for it (every zero of a denominator inside the window of the coded "
         "type, every scale limit, their neighbours, the extremes of the coded type, NaN / infinities / extreme magnitudes for float objects; "
-        "thorough: the whole 8-bit window for 240 of them) and at the truncations of such PDUs; corpus, enumerated families and every second random document (all in the thorough tier) are decoded "
+        "thorough: the whole 8-bit window for 240 of them) and at the truncations of such PDUs; objects of a size fixed by the description "
+        "(RESERVED, unsigned / signed / low-high integers, CODED-CONST, byte fields, ASCII / UCS-2 strings, MATCHING-REQUEST-PARAM) of 20 widths "
+        "1 ... 520 bits around and beyond the 64 bits of the extraction routine x bit position 0/3/7 x 9 placements (last object, in front of a "
+        "byte / an END-OF-PDU field / an END-OF-PDU byte field, in a structure, in a response, as static-field item, as END-OF-PDU-field item: "
+        "2 619 descriptions, quick one placement per (kind, width)) with every prefix of complete PDUs; a TABLE behind 18 kinds of KEY-DOP "
+        "(integers, LINEAR to int / float, TEXTTABLE, ASCII / UTF-8 / UCS-2 strings, byte fields, floats, LEADING-LENGTH, MIN-MAX) x 7 "
+        "arrangements of TABLE-KEY / TABLE-STRUCT (126 descriptions) on PDUs whose key is a row's key, a valid value of the KEY-DOP without a "
+        "row, the key of two rows, or no value of the KEY-DOP, their prefixes and every single-byte mutation; these two families and the corpus "
+        "also through the public entry points of the generated document (Request/Response.decode, DiagService.decode_message, "
+        "DiagLayer.decode, DiagLayer.decode_response); corpus, enumerated families and every second random document (all in the thorough tier) are decoded "
         "in strict mode and again in lenient mode (strict_mode = False; termination and exception class only). Failing input = any exception not derived from "
-        "DecodeError, a hang (5 s alarm), a proper prefix that cuts a described object of a static layout and is not rejected, or a result "
+        "DecodeError, a hang (5 s alarm), a proper prefix that cuts a described object of a static layout -- or of the static prefix of a layout that "
+        "ends in objects which tolerate an exhausted PDU -- and is not rejected, or a result "
         "whose re-encoding needs bytes the input did not have. distinct = distinct (description or layer entry point, byte string); "
         "non-trivial = the byte string is not an unmodified own encoding")
 TRUSTED = ["positions of described objects in static layouts: harness/odxgen/refpdu.py (written from the ODX positional rules)",
@@ -41,7 +52,10 @@ ASSUMPTIONS = ["model totality by construction (Lean functions are total; loops 
                "direct oracle (static layouts, re-encoding criterion) and the correspondence with `(decode …)` of drv_codec",
                "'the library's decode error' = DecodeError and its subclass DecodeMismatch; a plain OdxError or EncodeError escaping from decode is a violation",
                "trailing bytes behind the last described object may be ignored by a Request/Response/Structure decode (the statement does not forbid it)",
-               "descriptions are well-formed (odxgen envelope): field items have positive length except in the corpus witnesses",
+               "descriptions are well-formed (odxgen envelope): field items have positive length except in the corpus witnesses; a CODED-CONST of an "
+               "integer type wider than 64 bits is ill-formed (odxtools can never encode it: every coded_const_prefix(), hence every "
+               "DiagService.decode_message, raises EncodeError) and is not generated -- integer *value* objects and RESERVED areas wider than 64 bits are "
+               "(decoding them raises the decode error)",
                "compu methods are well-formed (compudop_lib.well_formed): scales carry their coefficients / constants, a limit without value is "
                "INFINITE, a constant COMPU-DENOMINATOR is not 0; a denominator *polynomial* may vanish at coded values inside the limits of its "
                "scale (e.g. rpm = 60000 / period without a lower limit) -- such a coded value has to be rejected with the decode error; a DTC-DOP "
@@ -110,7 +124,7 @@ def decode_in_mode(obj, msg, strict=True):
     if strict:
         return O.impl_decode(obj, msg)
     import odxtools.exceptions as E
-    old = E.strict_mode
+    old = getattr(E, "strict_mode", True)
     E.strict_mode = False
     try:
         return O.impl_decode(obj, msg)
@@ -146,8 +160,10 @@ def c05_eval(comp, obj, msg, need=None, trig=None, padding=True, check_invention
 
 
 def slot_need(comp):
+    """bytes a PDU must have: the end of the last described object of a static layout, resp. of the static *prefix* of a layout
+    that ends in objects which tolerate an exhausted PDU (round 6: c05_lib.static_prefix_need)"""
     try:
-        return required_length(comp)
+        return C5.static_prefix_need(comp)[0]
     except Exception:  # noqa
         return None
 
@@ -193,6 +209,17 @@ class Run:
         M.guarded(ctx)
         self.corr = M.CoarseCorrespondence(ctx, canon=canon05)
         self._sx = {}
+        self._dg = {}
+
+    def digest(self, comp):
+        """short identification of a description (for the distinctness count of the entry-point cases)"""
+        import hashlib
+        d = self._dg.get(id(comp))
+        if d is None or d[0] is not comp:
+            if len(self._dg) > 256:
+                self._dg.clear()
+            d = self._dg[id(comp)] = (comp, hashlib.blake2b(self.sx(comp)[0].encode(), digest_size=8).hexdigest())
+        return d[1]
 
     def sx(self, comp):
         """(s-expression of the description, is it sent to the model) -- computed once per description object (a description is
@@ -205,9 +232,43 @@ class Run:
             e = self._sx[id(comp)] = (comp, s, "(other)" not in s)
         return e[1], e[2]
 
-    def case(self, comp, obj, msg, family, need=None, trig=None, padding=True, invention=True, fixed_features=None, what=None, shrink=True, corr=True,
-             lenient=True):
+    def entry_points(self, comp, obj, entries, msg, family, need, fixed_features=None, what=None, lenient=True):
+        """the same byte string at the public entry points of the document (Request/Response.decode, DiagService.decode_message,
+        DiagLayer.decode, DiagLayer.decode_response): termination, exception class, rejection of a PDU that ends inside the
+        static prefix; lenient mode: termination and exception class"""
         ctx = self.ctx
+        key = self.digest(comp)
+        msg = bytes(msg)
+        try:
+            import odxtools.exceptions as E
+        except Exception:  # noqa
+            return
+        old = getattr(E, "strict_mode", True)
+        try:
+            for strict in ((True, False) if lenient else (True,)):
+                E.strict_mode = strict
+                for entry, f, extra in entries:
+                    r, st = C5.entry_eval(entry, f, extra, obj, msg, need if strict else None)
+                    ctx.case((key, msg, entry, strict), nontrivial=family != "own")
+                    ctx.histo("entry_point", entry)
+                    ctx.histo("entry_outcome" if strict else "entry_outcome_lenient", st.split(":")[0])
+                    if r:
+                        E.strict_mode = old
+                        # (the entry point is part of the witness, not of the signature: one kind of failure usually shows at all of them)
+                        ff = (list(fixed_features) if fixed_features is not None else O.narrow_features(comp) + ["entry:" + entry]) + ([] if strict else ["lenient"])
+                        self.rep.report(r[0], r[1], comp, {"pdu": msg.hex(), "strict": strict}, None,
+                                        {**r[2], "pdu": msg.hex(), "family": family, "entry": entry, "strict": strict}, fixed_features=ff,
+                                        what=(what or f"{r[0]}: {r[1]} when decoding {msg.hex() or '-'} ({family})") + f" through {entry}"
+                                        + ("" if strict else " in lenient mode (strict_mode = False)"))
+                        E.strict_mode = strict
+        finally:
+            E.strict_mode = old
+
+    def case(self, comp, obj, msg, family, need=None, trig=None, padding=True, invention=True, fixed_features=None, what=None, shrink=True, corr=True,
+             lenient=True, entries=None, entries_lenient=None):
+        ctx = self.ctx
+        if entries:
+            self.entry_points(comp, obj, entries, msg, family, need, fixed_features, what, lenient if entries_lenient is None else entries_lenient)
         r, dec = c05_eval(comp, obj, msg, need, trig, padding, invention)
         sx, modelled = self.sx(comp)
         ctx.case((sx, bytes(msg)), nontrivial=family != "own")
@@ -511,8 +572,92 @@ def compu_dop_family(run_, ctx, big):
     run_.corr.flush()
 
 
+# ------------------------------------------------------------------ round 6: enumerated small scopes (c05_lib)
+def load_alone(ctx, comp):
+    """one document per description: its layer has exactly the service of this coding object"""
+    L, err = O.safe_load(comp)
+    if L is None:
+        ctx.count("documents_rejected_by_loader")
+        ctx.histo("rejected_by_loader", (err or "")[:60])
+        return None, None, []
+    ctx.count("documents_loaded")
+    return L, L[comp.name], C5.public_entries(L, comp)
+
+
+def wide_family(run_, ctx, big):
+    """enum-wide-objects: objects of a size fixed by the description, 1 ... 520 bits wide (the extraction routine handles integers
+    up to 64 bits; everything wider takes another path), at bit positions 0 / 3 / 7, as the last object, in front of objects that
+    tolerate an exhausted PDU, inside structures and field items. Byte strings: complete PDUs written by hand (random / ff / 00
+    content) and the library's own encodings, EVERY proper prefix of them (static prefix: must be rejected), mutations,
+    extensions. Strict and lenient mode, decode_from_pdu (compared with the model) and the public entry points."""
+    rng = ctx.sub_rng("wide-objects")
+    n = 0
+    for comp, info in C5.enum_wide(None if big else rng):
+        n += 1
+        if big and n % 3 != ctx.seed % 3 and not (info["width"] in (64, 65, 72) and info["placement"] in ("last", "then-eop-field", "then-eop-bytes")):
+            continue        # thorough: a third of the cross product per seed; the boundary widths in the tolerant placements always
+        L, obj, entries = load_alone(ctx, comp)
+        if L is None:
+            continue
+        O.record_features(ctx, comp)
+        ctx.histo("family", "enum-wide-objects")
+        ctx.histo("wide_kind", info["kind"])
+        ctx.histo("wide_width", info["width"])
+        ctx.histo("wide_placement", info["placement"])
+        need = slot_need(comp)
+        own, trigs = own_encodings(rng, comp, obj, 1)
+        hand = C5.wide_pdus(rng, comp, info, need)
+        feats = ["wide-object", "kind:" + info["kind"], "width" + ("<=64" if info["width"] <= 64 else ">64")]
+        what = f"enum-wide-objects: {info['kind']} of {info['width']} bits at bit position {info['bitpos']} ({info['placement']})"
+        strs = list(M.byte_strings(rng, own + hand[:1], M.BASE_ALPHABET + [0x22], maxlen=1, n_random=4, n_mut=6))
+        for h in hand[1:]:
+            strs += [("prefix", h[:k], None) for k in sorted({0, 1, 2, len(h) // 2, len(h) - 9, len(h) - 8, len(h) - 3, len(h) - 2, len(h) - 1}) if 0 <= k < len(h)]
+            strs.append(("hand", h, None))
+        seen = set()
+        for fam, b, k in strs:
+            if (fam, b) in seen:
+                continue
+            seen.add((fam, b))
+            core = big or fam in ("own", "prefix", "hand")
+            # all entry points for the complete PDUs and the prefixes that end in the last 9 bytes; the coding object's decode() and the
+            # layer for the shorter prefixes (thorough: also for mutations, extensions, small and random strings)
+            ents = entries if fam in ("own", "hand") or (fam == "prefix" and len(b) >= (need or 0) - 9) else [e for e in entries if e[0] in C5.LITE_ENTRIES]
+            run_.case(comp, obj, b, fam, need, None, True, invention=False, fixed_features=feats, shrink=False, what=what + f" on {b.hex() or '-'} ({fam})",
+                      corr=True, lenient=core, entries=ents if core else None, entries_lenient=fam in ("own", "hand"))
+        if n % 40 == 0:
+            run_.corr.flush()
+    run_.corr.flush()
+
+
+def table_key_family(run_, ctx, big):
+    """enum-table-key-dops: a TABLE behind every kind of KEY-DOP (18) in every arrangement of TABLE-KEY / TABLE-STRUCT (7); PDUs
+    whose key is a row's key, a valid value of the KEY-DOP without a row, the key of two rows, no value of the KEY-DOP at all;
+    their prefixes and single-byte mutations (every position). The model does not follow tables: direct oracle only."""
+    rng = ctx.sub_rng("table-key-dops")
+    for comp, info in C5.enum_table_keys():
+        L, obj, entries = load_alone(ctx, comp)
+        if L is None:
+            continue
+        O.record_features(ctx, comp)
+        ctx.histo("family", "enum-table-key-dops")
+        ctx.histo("table_key_dop", info["key-dop"])
+        ctx.histo("table_key_shape", info["shape"])
+        need = slot_need(comp)
+        own, trigs = own_encodings(rng, comp, obj, 3)
+        hand = [p for _w, p in info["pdus"]]
+        for w, _p in info["pdus"]:
+            ctx.histo("table_key_on_the_wire", w)
+        feats = ["table-key", "key-dop:" + info["key-dop"]]
+        for fam, b in C5.key_strings(rng, hand, own, [w for w, _p in info["pdus"]]):
+            # quick: all entry points for the PDUs and their prefixes, the coding object's decode() and the layer for the mutations
+            ents = entries if big or fam in ("hand", "own", "prefix") else [e for e in entries if e[0] in C5.LITE_ENTRIES] if fam == "mutation" else None
+            run_.case(comp, obj, b, fam, need, None, True, invention=False, fixed_features=feats, shrink=False, corr=False,
+                      what=f"enum-table-key-dops: KEY-DOP {info['key-dop']}, {info['shape']} on {b.hex() or '-'} ({fam})",
+                      lenient=True, entries=ents, entries_lenient=big or fam in ("hand", "own"))
+
+
 # ------------------------------------------------------------------ generated descriptions
-def run_doc(run, comp, family, rng, big, lenient=True):
+def run_doc(run, comp, family, rng, big, lenient=True, with_entries=False):
     ctx = run.ctx
     L, err = O.safe_load(comp)
     if L is None:
@@ -520,17 +665,24 @@ def run_doc(run, comp, family, rng, big, lenient=True):
         return
     ctx.count("documents_loaded")
     obj = L[comp.name]
+    entries = C5.public_entries(L, comp) if with_entries else []
+    lite = [e for e in entries if e[0] in C5.LITE_ENTRIES]
+    if entries:
+        ctx.count("documents_decoded_through_public_entry_points")
     O.record_features(ctx, comp)
     ctx.histo("family", family)
     own, trigs = own_encodings(rng, comp, obj, 3 if big else 2)
     need = slot_need(comp)
     pad = has_padding(comp)
-    ctx.histo("layout", "static" if need is not None else "dynamic")
+    ctx.histo("layout", "static" if required_length(comp) is not None else "dynamic" if need is None else "dynamic-with-static-prefix")
     alpha = sorted(set(M.BASE_ALPHABET + M.constants_of(comp)))[:9 if big else 7]
     for fam, b, k in M.byte_strings(rng, own, alpha, maxlen=3 if big else 2, n_random=30 if big else 10, n_mut=16 if big else 8,
                                     small_cap=700 if big else None):
+        # (round 6) a share of the documents also through their public entry points: every one for the own encodings, their prefixes,
+        # deletions and extensions; the coding object's decode() and the layer for the mutations (thorough: also for the other strings)
+        ents = entries if fam in ("own", "prefix", "deletion", "extension") else lite if fam == "mutation" or big else None
         run.case(comp, obj, b, fam, need, trigs[k] if k is not None else None, pad, invention=(k is not None and fam in ("own", "prefix", "mutation", "deletion")),
-                 lenient=lenient)
+                 lenient=lenient, entries=ents, entries_lenient=lenient and fam == "own")
 
 
 def run(ctx):
@@ -546,9 +698,10 @@ def run(ctx):
         O.record_features(ctx, c)
         ctx.histo("family", "corpus")
         own, trigs = own_encodings(ctx.sub_rng("corpus", tag), c, L[c.name], 2)
+        entries = C5.public_entries(L, c)
         for m in [bytes.fromhex(x) for x in msgs] + [p[:n] for p in own for n in range(len(p) + 1)]:
             run_.case(c, L[c.name], m, "corpus", None, None, True, False, fixed_features=feats, shrink=False,
-                      what=f"corpus witness '{tag}' fails again on {m.hex() or '-'}")
+                      what=f"corpus witness '{tag}' fails again on {m.hex() or '-'}", entries=entries)
     run_.corr.flush()
     # (b) the shipped database
     somersault_family(ctx, big)
@@ -589,6 +742,9 @@ def run(ctx):
     run_.corr.flush()
     # (c'') DOPs behind every compu category (rational functions with poles, piecewise and interpolated functions, float objects)
     compu_dop_family(run_, ctx, big)
+    # (c3) round 6: objects of every width (beyond the 64 bits of the extraction routine), tables behind every kind of KEY-DOP
+    wide_family(run_, ctx, big)
+    table_key_family(run_, ctx, big)
     # (d) random composites
     n_docs = 4200 if big else 1000
     for i in range(n_docs):
@@ -598,7 +754,8 @@ def run(ctx):
         except Exception as e:  # noqa
             ctx.count("generator_error:" + type(e).__name__)
             continue
-        run_doc(run_, c, "random-" + prof.tier, rng, big, lenient=big or i % 2 == 0 or G.params_extent(c.params) is None and i % 4 != 1)
+        run_doc(run_, c, "random-" + prof.tier, rng, big, lenient=big or i % 2 == 0 or G.params_extent(c.params) is None and i % 4 != 1,
+                with_entries=i % (10 if big else 5) == 2)
         if i % 60 == 59:
             run_.corr.flush()
     run_.corr.flush()
@@ -638,5 +795,18 @@ def replay(ctx, data):
         return False
     msg = bytes.fromhex(w["pdu"]) if isinstance(w.get("pdu"), str) else bytes.fromhex(V.from_jsonable(w["value"])["pdu"])
     strict = w.get("strict", True) is not False and not (isinstance(w.get("value"), dict) and V.from_jsonable(w["value"]).get("strict") is False)
+    if w.get("entry"):
+        # a failing input observed at a public entry point of the generated document (round 6)
+        import odxtools.exceptions as E
+        old = getattr(E, "strict_mode", True)
+        try:
+            E.strict_mode = strict
+            for entry, f, extra in C5.public_entries(L, c):
+                if entry == w["entry"]:
+                    r, _st = C5.entry_eval(entry, f, extra, L[c.name], msg, slot_need(c) if strict else None)
+                    return r is None
+        finally:
+            E.strict_mode = old
+        return False
     r, dec = c05_eval(c, L[c.name], msg, slot_need(c), None, has_padding(c), False, strict=strict)
     return r is None
